@@ -39,7 +39,7 @@ type histOp struct {
 }
 
 var histOpNames = []string{"add", "neg", "double", "scalarmult", "normalise", "set", "unmarshal-roundtrip", "unmarshal-compressed-roundtrip",
-	"basemult", "x+(-x)+y", "x+infinity", "set-generator", "neg-in-place-twice"}
+	"basemult", "x+(-x)+y", "x+infinity", "set-generator", "neg-in-place-twice", "read-only-method"}
 
 var histInitNames = []string{"set-gen", "basemult", "unmarshal", "unmarshal-compressed", "infinity-basemult", "infinity-unmarshal"}
 
@@ -82,7 +82,7 @@ func genPairHist(t *rapid.T) pairHistCase {
 	for i := 0; i < nops; i++ {
 		c.Ops = append(c.Ops, histOp{
 			G:    rapid.SampledFrom([]int{1, 2, 2}).Draw(t, "g"),
-			Kind: rapid.SampledFrom([]int{0, 0, 1, 1, 1, 2, 3, 4, 4, 5, 5, 6, 7, 8, 9, 10, 11, 12}).Draw(t, "kind"),
+			Kind: rapid.SampledFrom([]int{0, 0, 1, 1, 1, 2, 3, 4, 4, 5, 5, 6, 7, 8, 9, 10, 11, 12, 13, 13, 13}).Draw(t, "kind"),
 			Dst:  rapid.IntRange(0, 2).Draw(t, "dst"),
 			X:    rapid.IntRange(0, 2).Draw(t, "x"),
 			Y:    rapid.IntRange(0, 2).Draw(t, "y"),
@@ -224,6 +224,8 @@ func (hr *histRegs[L, E]) apply(o histOp, libGen L) error {
 	case 11:
 		g.set(d, libGen)
 		hr.dlog[o.Dst] = big.NewInt(1)
+	case 13: // String / fmt %v / Equal / IsOnCurve / Marshal*: the model says nothing changes
+		return g.readOnly(x, y, o.K, hr.dlog[o.X].Sign() != 0)
 	case 12: // -(-x) in place
 		g.set(d, x)
 		g.neg(d, d)
@@ -379,7 +381,11 @@ func TestC09_PairHistoryFixed(t *testing.T) {
 		// every single derivation step applied to each kind of source, on either group
 		for kind := 0; kind < 4; kind++ {
 			for op := range histOpNames {
-				for _, k := range []int{2, 11} { // scalar 1 and n-1
+				ks := []int{2, 11} // scalar 1 and n-1
+				if histOpNames[op] == "read-only-method" {
+					ks = []int{0, 1, 2, 3, 4, 5, 6} // every read-only method
+				}
+				for _, k := range ks {
 					emit(pairHistCase{Init1: std1, Init2: inits(kind), Ops: []histOp{{G: 2, Kind: op, Dst: 0, X: 0, Y: 1, K: k}}, I: 0, J: 0, J2: 2})
 					emit(pairHistCase{Init1: inits(kind), Init2: inits(kind), Ops: []histOp{{G: 1, Kind: op, Dst: 0, X: 0, Y: 1, K: k}}, I: 0, J: 0, J2: 1})
 				}
@@ -402,7 +408,7 @@ type gtOp struct {
 }
 
 var gtOpNames = []string{"mul", "mul-in-place", "pow-ScalarMultGT", "pow-GT.ScalarMult-in-place", "set", "unmarshal-roundtrip",
-	"pair(kP1,P2)", "table-ScalarBaseMultGT", "GT.ScalarBaseMult", "set-one", "invert-by-n-1", "finalize-miller"}
+	"pair(kP1,P2)", "table-ScalarBaseMultGT", "GT.ScalarBaseMult", "set-one", "invert-by-n-1", "finalize-miller", "read-only-method"}
 
 type gtChainCase struct {
 	Init []int // small exponents
@@ -512,6 +518,15 @@ func checkGTChain(c gtChainCase, r *h.Rec) error {
 				return err
 			}
 			reg[o.Dst], mod[o.Dst] = e, m
+		case 12: // String / fmt %v / Marshal: nothing changes
+			switch o.K % 3 {
+			case 0:
+				_ = reg[o.X].String()
+			case 1:
+				_ = fmt.Sprintf("%v %s", reg[o.X], reg[o.X])
+			default:
+				scribble(reg[o.X].Marshal())
+			}
 		case 11:
 			q, err := libG2Base(be32(k))
 			if err != nil {
